@@ -545,9 +545,9 @@ def oracle_xml_text(case):
         if ex is None:
             return fail(case, 'ill-formed XML raises ParseError (independent Expat: error %d at line %d, column %d)' % (code, line, col),
                         ['ParseError', line, col], trim([cev(e) for e in ev]))
-        if (ex.lineno, ex.offset) != (line, col):
-            return fail(case, 'ParseError carries the line (and column) of the error as reported by an independent Expat',
-                        ['ParseError', line, col], exc_desc(ex))
+        if ex.lineno != line:
+            return fail(case, 'ParseError carries the line of the error as reported by an independent Expat',
+                        ['ParseError', line], exc_desc(ex))
         return None
     if ex is not None:
         return fail(case, 'well-formed XML (accepted by an independent Expat) is parsed', 'a stream', exc_desc(ex) + [str(ex)[:200]])
@@ -1320,9 +1320,48 @@ def prefix_cases(rng, ndocs):
 # --------------------------------------------------------------------------
 # one case: oracle + what to send to the model
 
+HTML_ARITY = {'st': 3, 'se': 3, 'et': 2, 'd': 2, 'c': 2, 'pi': 2, 'cr': 2, 'er': 2, 'decl': 2}
+XML_ARITY = {'se': 3, 'ee': 2, 'cd': 2, 'xd': 4, 'dt': 5, 'ns': 3, 'ens': 2, 'sc': 1, 'ec': 1, 'pi': 3, 'cm': 2, 'df': 4, 'xerr': 3}
+
+
+def valid_script(script, arity):
+    """shape check (the shrinker cuts lists blindly; a mangled script is not a case)"""
+    def item_ok(it):
+        if not (isinstance(it, list) and it and isinstance(it[0], str)):
+            return False
+        if it[0] == 'raise':
+            return len(it) >= 2 and it[1] in EXC
+        if arity.get(it[0]) != len(it):
+            return False
+        if it[0] in ('st', 'se') and arity is HTML_ARITY:
+            return isinstance(it[1], str) and all(isinstance(a, list) and len(a) == 2 and isinstance(a[0], str) for a in it[2])
+        if it[0] == 'se':
+            return isinstance(it[1], str) and all(isinstance(a, list) and len(a) == 2 for a in it[2])
+        return True
+    if not (isinstance(script, dict) and isinstance(script.get('reads'), list) and isinstance(script.get('close'), list)):
+        return False
+    for r in script['reads']:
+        if not (isinstance(r, list) and r):
+            return False
+        if r[0] == 't':
+            if not (len(r) == 2 and isinstance(r[1], list) and all(item_ok(i) for i in r[1])):
+                return False
+        elif r[0] == 'b':
+            if len(r) != 1 or arity is not HTML_ARITY:
+                return False
+        elif r[0] == 'f':
+            if not (len(r) >= 2 and r[1] in EXC):
+                return False
+        else:
+            return False
+    return all(item_ok(i) for i in script['close'])
+
+
 def oracle_syn_html(case):
     gi, _ = genshi_mods()
     script = case['script']
+    if not valid_script(script, HTML_ARITY):
+        return None
     ev, ex = run_syn_html(script)
     want_propagate = first_non_exception(script)
     if ex is not None and not isinstance(ex, gi.ParseError):
@@ -1353,6 +1392,8 @@ def first_non_exception(script):
 def oracle_syn_xml(case):
     gi, _ = genshi_mods()
     script = case['script']
+    if not valid_script(script, XML_ARITY):
+        return None
     ev, ex = run_syn_xml(script)
     cevs = [cev(e) for e in ev]
     for a, b in zip(cevs, cevs[1:]):
@@ -1388,17 +1429,33 @@ def oracle_case(case):
 
 
 def oracle_raw(case):
-    """known-finding replays: a Python expression over XML / HTML evaluated on the real code"""
+    """known-finding replays: a Python expression over the parser API evaluated on the real code.
+    `expect` states what the property demands: 'ParseError' (the expression must raise it), 'equal'
+    (the expression gives two event sequences that must be the same), or a list of canonical events."""
     gi, _ = genshi_mods()
     env = {'XML': gi.XML, 'HTML': gi.HTML, 'XMLParser': gi.XMLParser, 'HTMLParser': gi.HTMLParser,
            'BytesIO': io.BytesIO, 'StringIO': io.StringIO, 'ChunkReader': G.ChunkReader}
+    env.update(case.get('vars', {}))
+    want = case['expect']
     try:
         r = eval(case['expr'], env)
-        got = ['ok', [cev(e) for e in r]]
+        if want == 'equal':
+            x, y = r
+            got = ['ok', [cev(e) for e in x], [cev(e) for e in y]]
+        else:
+            got = ['ok', [cev(e) for e in r]]
     except BaseException as e:   # noqa
-        got = ['ParseError'] if isinstance(e, gi.ParseError) else ['Other:' + type(e).__name__]
-    if got[0] != case['expect']:
-        return fail(case, case.get('what', 'documented outcome'), case['expect'], got)
+        if isinstance(e, (KeyboardInterrupt, SystemExit)):
+            raise
+        got = ['ParseError', e.lineno, e.offset] if isinstance(e, gi.ParseError) else ['Other:' + type(e).__name__, str(e)[:120]]
+    if want == 'ParseError':
+        ok = got[0] == 'ParseError'
+    elif want == 'equal':
+        ok = got[0] == 'ok' and got[1] == got[2]
+    else:
+        ok = got[0] == 'ok' and got[1] == want
+    if not ok:
+        return fail(case, case.get('what', 'documented outcome'), want, trim(got))
     return None
 
 
@@ -1543,14 +1600,17 @@ FIXED = [
 
 def run(ctx):
     nsh = 16
-    per = ctx.n(420, 14000)
-    nprefix = ctx.n(3, 14)
-    big = ctx.n(1, 6)
+    per = ctx.n(2000, 30000)
+    nprefix = ctx.n(8, 60)
+    big = ctx.n(3, 20)
     args = [(ctx.seed, i, per, nprefix, big) for i in range(nsh)]
     res = Result()
     for r in pmap('harness.props.c07', 'shard', args):
         res.merge(r)
     process(FIXED + load_corpus(), res)
+    # report a failing input of the real tokenizers before one of the scripted ones
+    prio = {'html': 0, 'xml-text': 0, 'xml-tree': 1, 'html-bytes': 1, 'raw': 1, 'syn-html': 2, 'syn-xml': 2}
+    res.failures.sort(key=lambda f: (prio.get(f['case'].get('kind'), 3), len(json.dumps(f['case']))))
     res.rule = ('HTML tag soup (mismatched / void / raw-text / mixed-case tags, broken attributes, entities in and out of range, '
                 'control characters, declarations, marked sections), truncations and every prefix of valid documents, random bytes '
                 'under four codecs, documents longer than the 4 KiB buffer read in 1/7/4095/4096/4097 chunks and random schedules; '
